@@ -16,9 +16,11 @@ import (
 	"math"
 	"net"
 	"os"
+	"reflect"
 	"strconv"
 	"sync"
 	"testing"
+	"unsafe"
 
 	"pgregory.net/rapid"
 )
@@ -194,8 +196,14 @@ func c12RoachUnwrapper(bias bool, pulseSign int) *PhaseUnwrapper {
 	if err := dev.samplePacket(); err != nil {
 		panic("harness: samplePacket: " + err.Error())
 	}
-	c12RoachTemplates[key] = *dev.unwrap[0]
-	cp := *dev.unwrap[0]
+	// (through reflection, so that the harness still builds if the device keeps its unwrappers by value rather than by pointer)
+	el := reflect.ValueOf(dev.unwrap).Index(0)
+	if el.Kind() == reflect.Ptr {
+		el = el.Elem()
+	}
+	tmpl := *(*PhaseUnwrapper)(unsafe.Pointer(el.UnsafeAddr()))
+	c12RoachTemplates[key] = tmpl
+	cp := tmpl
 	return &cp
 }
 
